@@ -106,6 +106,8 @@ pub struct Scenario {
     pub bad_credentials: bool,
     /// the SSH password the server accepts and (unless bad_credentials) the client presents
     pub password: String,
+    /// request #0 carries a subtree filter with this many bytes of text (0 = plain <get/>)
+    pub big_request: usize,
 }
 
 #[derive(Clone, Debug, PartialEq, Eq)]
@@ -555,7 +557,8 @@ where
                 o.resolved_ns[k] = epoch.map_or(0, |e| tokio::time::Instant::now().duration_since(e).as_nanos() as u64);
             }
         };
-        match tokio::time::timeout(WAIT, s.rpc::<Get, _>(|b| b.finish())).await {
+        let filter = (k == 0 && sc.big_request > 0).then(|| netconf::message::rpc::operation::Filter::Subtree(format!("<top xmlns=\"urn:x\"><big>{}</big></top>", "0123456789abcdef".repeat(sc.big_request / 16 + 1))));
+        match tokio::time::timeout(WAIT, s.rpc::<Get, _>(|b| b.filter(filter).finish())).await {
             Ok(Ok(f)) => {
                 let t = tokio::spawn(async move {
                     let r = res_of(tokio::time::timeout(WAIT, f).await, |v| v.chars().take(60).collect());
